@@ -1,7 +1,211 @@
-(* WireGc.v — wire interfaces of the "gc" area (see docs/AGENT_GUIDE.md for the id range).
-   [run_gc c] receives the whole case (first element = interface id). *)
+(* WireGc.v — wire interfaces of the "gc" area (ids 60-69).
+   61: a heap snapshot taken by the harness before a collection (harness/src/area_gc.rs
+       `snapshot`) is decoded into a machine state; Model/Gc.v's mark + sweep runs on it and
+       the resulting allocated set, free-list order and symbol table are printed in the
+       canonical form the harness prints for the real heap after the real collection.
+   62: the packed two-bit map of gc.rs: a sequence of set/get operations.
+   65: string->symbol / symbol->string (Model/SymbolB.v).
+   60/63/64 are implementation-only interfaces (sessions under a collection schedule);
+   their model answer is "same as schedule none", computed by the Python oracle.        *)
 From Coq Require Import String.
-From MW Require Import Model.Base Model.Datum.
+From MW Require Import Model.Base Model.F64 Model.Num Model.Datum Model.TransformDef
+  Model.VmTypes Model.Heap Model.Gc Model.SymbolB.
 Open Scope N_scope.
 
-Definition run_gc (c : list N) : list N := S_ "BADCASE".
+(* --------------------------------------------------------------- a list parser *)
+Definition P (A : Type) := list N -> option (A * list N).
+Definition pret {A} (a : A) : P A := fun l => Some (a, l).
+Definition pbind {A B} (p : P A) (f : A -> P B) : P B :=
+  fun l => match p l with Some (a, r) => f a r | None => None end.
+Notation "'dop' x <- e1 ; e2" := (pbind e1 (fun x => e2))
+  (at level 200, x pattern, e1 at level 100, e2 at level 200, right associativity).
+Definition pnum : P N := fun l => match l with x :: r => Some (x, r) | [] => None end.
+Fixpoint prep {A} (n : nat) (p : P A) : P (list A) :=
+  match n with
+  | O => pret []
+  | S k => dop a <- p; dop r <- prep k p; pret (a :: r)
+  end.
+(* a count followed by that many items *)
+Definition pcounted {A} (p : P A) : P (list A) := dop n <- pnum; prep (N.to_nat n) p.
+
+(* vcell encoding, see area_gc.rs Ser::vcell.  Numbers, builtins and opcodes carry no
+   payload on the wire (the collector does not look at them). *)
+Definition pvcell : P vcell :=
+  dop tag <- pnum;
+  match tag with
+  | 0 => dop b <- pnum; pret (VBool (negb (b =? 0)))
+  | 1 => dop c <- pnum; pret (VChar c)
+  | 2 => pret VNil
+  | 3 => pret (VNum (Fixnum 0))
+  | 4 => dop a <- pnum; dop d <- pnum; pret (VPair a d)
+  | 5 => dop t <- pcounted pnum; pret (VSym t)
+  | 6 => dop i <- pnum; pret (VStr i)
+  | 7 => dop i <- pnum; pret (VVec i)
+  | 8 => pret VUndef
+  | 9 => pret VVoid
+  | 10 => dop i <- pnum; pret (VCont i)
+  | 11 => dop l <- pnum; dop e <- pnum; pret (VClosure l e)
+  | 12 => dop i <- pnum; pret (VLambda i)
+  | 13 => dop i <- pnum; pret (VLexEnv i)
+  | 14 => dop i <- pnum; pret (VLexSlot i)
+  | 15 => dop e <- pnum; dop i <- pnum; pret (VLexPtr e i)
+  | 16 => dop i <- pnum; pret (VMacro i)
+  | 17 => pret VAcc
+  | 18 => dop n <- pnum; pret (VArgc n)
+  | 19 => dop n <- pnum; pret (VBp n)
+  | 20 => dop sg <- pnum; dop mag <- pnum;
+          pret (VBpOff (if sg =? 0 then Z.of_N mag else (- Z.of_N mag)%Z))
+  | 21 => pret (VBuiltin 0)
+  | 22 => dop p <- pnum; pret (VEp p)
+  | 23 => dop i <- pnum; pret (VGSlot i)
+  | 24 => dop l <- pnum; dop i <- pnum; pret (VIp l i)
+  | 25 => pret (VOp OHalt)
+  | 26 => dop p <- pnum; pret (VPtr p)
+  | _ => fun _ => None
+  end.
+
+Definition gcstate_of (n : N) : gcstate :=
+  match n with 0 => GFree | 1 => GAllocated | _ => GUsed end.
+
+Definition pcellrow : P (N * gcstate * vcell) :=
+  dop a <- pnum; dop s <- pnum; dop v <- pvcell; pret (a, gcstate_of s, v).
+Definition psymrow : P (text * N) :=
+  dop a <- pnum; dop t <- pcounted pnum; pret (t, a).
+Definition plam : P lambda :=
+  dop bc <- pcounted pvcell; dop args <- pcounted pvcell; dop keys <- pcounted pvcell;
+  pret (mk_lambda false false (map (fun k => (k, BGlobal)) keys) args bc None).
+Definition pcont : P cont :=
+  dop stk <- pcounted pvcell; dop ip0 <- pnum; dop ip1 <- pnum; dop ep <- pnum;
+  dop bp <- pnum; dop sp <- pnum; pret (mk_cont stk sp ep (ip0, ip1) bp).
+Definition pbindrow : P (N * N) := dop k <- pnum; dop s <- pnum; pret (k, s).
+
+Fixpoint tbl_of_list {A} (l : list A) (i : N) (t : tbl A) : tbl A :=
+  match l with [] => t | x :: r => tbl_of_list r (i + 1) (tset t i x) end.
+
+Definition psnapshot : P vm :=
+  dop hl <- pnum; dop ch <- pnum;
+  dop rows <- pcounted pcellrow;
+  dop fl <- pcounted pnum;
+  dop syms <- pcounted psymrow;
+  dop vs <- pcounted (pcounted pvcell);
+  dop es <- pcounted (pcounted pvcell);
+  dop ls <- pcounted plam;
+  dop ks <- pcounted pcont;
+  dop binds <- pcounted pbindrow;
+  dop slots <- pcounted pvcell;
+  dop stk <- pcounted pvcell;
+  dop acc <- pvcell;
+  dop ip0 <- pnum; dop ip1 <- pnum; dop ep <- pnum; dop bp <- pnum;
+  let cs := fold_left (fun t r => match r with (a, _, v) => tset t a v end) rows tempty in
+  let gm := fold_left (fun t r => match r with (a, s, _) => tset t a s end) rows tempty in
+  let h := mk_heap cs hl fl gm syms ch in
+  let s := mk_store tempty (tbl_of_list vs 0 tempty) (tbl_of_list es 0 tempty)
+                    (tbl_of_list ls 0 tempty) (tbl_of_list ks 0 tempty) tempty 0 in
+  pret (mk_vm h s binds slots (tbl_of_list stk 0 tempty) (N.of_nat (length stk))
+              (N.of_nat (length stk) - 1) bp ep (ip0, ip1) acc []).
+
+(* ------------------------------------------------------------ canonical line *)
+Definition P61 : N := 2305843009213693951.
+Definition hash_seq (l : list N) : N :=
+  fold_left (fun h x => (h * 1000003 + (x mod P61) + 1) mod P61) l 7.
+
+Fixpoint alloc_list (m : gmap) (want : gcstate -> bool) (a : N) (n : nat) : list N :=
+  match n with
+  | O => []
+  | S k => if want (g_get m a) then a :: alloc_list m want (a + 1) k else alloc_list m want (a + 1) k
+  end.
+
+Definition is_alloc (s : gcstate) := match s with GAllocated => true | _ => false end.
+Definition is_used (s : gcstate) := match s with GUsed => true | _ => false end.
+
+Definition show_Ns (l : list N) : list N := flat_map (fun x => 32 :: show_N x) l.
+
+Definition show_after (verbose : bool) (h : heap) : list N :=
+  let n := N.to_nat (hlen h) in
+  let al := alloc_list (gcmap h) is_alloc 0 n in
+  let us := alloc_list (gcmap h) is_used 0 n in
+  let hs := fold_left (fun acc e => (acc + hash_seq (snd e :: fst e)) mod P61) (symtab h) 0 in
+  S_ "OK alloc " ++ show_N (N.of_nat (length al)) ++ [32] ++ show_N (hash_seq al)
+  ++ S_ " free " ++ show_N (N.of_nat (length (free_list h))) ++ [32] ++ show_N (hash_seq (free_list h))
+  ++ S_ " sym " ++ show_N (N.of_nat (length (symtab h))) ++ [32] ++ show_N hs
+  ++ S_ " used " ++ show_N (N.of_nat (length us))
+  ++ (if verbose then S_ " ALLOC" ++ show_Ns al ++ S_ " FREE" ++ show_Ns (free_list h) else []).
+
+Definition run_snapshot (verbose : bool) (l : list N) : list N :=
+  match psnapshot l with
+  | Some (v, []) =>
+      let fuel := S (unmarked (hp v) (gcmap (hp v))) in
+      match collect (store_depth (st v)) fuel (map fst (g_bind v)) v with
+      | Ok h => show_after verbose h
+      | Err _ => S_ "ERR"
+      | Panic _ => S_ "PANIC"
+      | NoFuel => S_ "NOFUEL"
+      end
+  | _ => S_ "BADCASE"
+  end.
+
+(* ------------------------------------------------- 62: packed map operations *)
+(* 62 size { 0 index | 1 index state }*  : get / set; prints each get result *)
+Definition show_state (s : option gcstate) : list N :=
+  match s with
+  | None => S_ " N" | Some GFree => S_ " F" | Some GAllocated => S_ " A" | Some GUsed => S_ " U"
+  end.
+Fixpoint pmap_ops (fuel : nat) (m : pmap) (l : list N) (acc : list N) : list N :=
+  match fuel with
+  | O => acc
+  | S f =>
+      match l with
+      | 0 :: i :: r =>
+          match pmap_get m i with
+          | Ok s => pmap_ops f m r (acc ++ show_state s)
+          | _ => acc ++ S_ " PANIC"
+          end
+      | 1 :: i :: s :: r =>
+          match pmap_set m i (gcstate_of s) with
+          | Ok m1 => pmap_ops f m1 r acc
+          | _ => acc ++ S_ " PANIC"
+          end
+      | 2 :: n :: r =>
+          match pmap_resize m n with
+          | Ok m1 => pmap_ops f m1 r acc
+          | _ => acc ++ S_ " PANIC"
+          end
+      | _ => acc
+      end
+  end.
+Definition run_pmap (l : list N) : list N :=
+  match l with
+  | size :: ops =>
+      match pmap_new size with
+      | Ok m => S_ "OK" ++ pmap_ops (length ops) m ops []
+      | _ => S_ "PANIC"
+      end
+  | [] => S_ "BADCASE"
+  end.
+
+(* ------------------------------------------------------- 65: symbol builtins *)
+(* 65 0 text : string->symbol        -> the symbol's stored name
+   65 1 text : symbol->string        -> the string
+   65 2 text : symbol->string (string->symbol text) *)
+Definition show_text_out (o : out text) : list N :=
+  match o with
+  | Ok t => S_ "OK " ++ esc_text t
+  | Err e => if e =? E_INCOMPLETE then S_ "ERR incomplete" else S_ "ERR"
+  | Panic _ => S_ "PANIC"
+  | NoFuel => S_ "NOFUEL"
+  end.
+Definition run_symbol (l : list N) : list N :=
+  match l with
+  | 0 :: t => show_text_out (Ok (string_to_symbol t))
+  | 1 :: t => show_text_out (symbol_to_string t)
+  | 2 :: t => show_text_out (symbol_to_string (string_to_symbol t))
+  | _ => S_ "BADCASE"
+  end.
+
+Definition run_gc (c : list N) : list N :=
+  match c with
+  | 61 :: verbose :: rest => run_snapshot (negb (verbose =? 0)) rest
+  | 62 :: rest => run_pmap rest
+  | 65 :: rest => run_symbol rest
+  | _ => S_ "BADCASE"
+  end.
